@@ -435,6 +435,7 @@ func runC04(c *Ctx) {
 		nsp = 6000
 	}
 	c.c04Spilled(nsp)
+	c.c04MergedBeyondRows()
 }
 
 func partDiff(a, b []string) []string {
@@ -559,5 +560,87 @@ func (c *Ctx) c04Spilled(n int) {
 		if len(c.R.Failures) >= 3 {
 			return
 		}
+	}
+}
+
+// merged ranges that reach below (or right of) what the worksheet stores: a stream-written sheet holds only the rows
+// that were written, so the lower rows of a merged range have no row element.  Every cell of a merged range reads as
+// the range's value through GetCellValue, whichever rows happen to be materialised; GetMergeCells reports the same
+// value; before and after save+open.
+func (c *Ctx) c04MergedBeyondRows() {
+	type mc struct {
+		Rows  int      `json:"rows_written"`
+		Cols  int      `json:"cells_per_row"`
+		Merge []string `json:"merged"`
+	}
+	cases := []mc{
+		{1, 1, []string{"A1:A4"}}, {1, 2, []string{"A1:B5"}}, {2, 1, []string{"A2:A6"}}, {1, 1, []string{"A1:C1"}},
+		{3, 2, []string{"B3:B9", "A1:A2"}}, {1, 3, []string{"C1:E4"}}, {2, 2, []string{"A1:B2", "A2:A2"}},
+	}
+	for _, k := range cases {
+		desc := map[string]interface{}{"stream_sheet": k}
+		c.guard("C04_no_panic", desc, func() {
+			f := excelize.NewFile()
+			defer f.Close()
+			sw, err := f.NewStreamWriter("Sheet1")
+			if err != nil {
+				return
+			}
+			for r := 1; r <= k.Rows; r++ {
+				var vals []interface{}
+				for j := 0; j < k.Cols; j++ {
+					vals = append(vals, fmt.Sprintf("v%d_%d", r, j+1))
+				}
+				sw.SetRow("A"+strconv.Itoa(r), vals)
+			}
+			for _, m := range k.Merge {
+				p := strings.Split(m, ":")
+				if sw.MergeCell(p[0], p[1]) != nil {
+					return
+				}
+			}
+			if sw.Flush() != nil {
+				return
+			}
+			c.Count("merged-beyond-rows", true, fmt.Sprint(k))
+			check := func(stage string, g *excelize.File) bool {
+				ms, err := g.GetMergeCells("Sheet1")
+				if err != nil {
+					c.Fail("oracle", "C04_rows_agree", desc, stage+": GetMergeCells: "+err.Error(), "")
+					return false
+				}
+				for _, m := range ms {
+					c1, r1, _ := excelize.CellNameToCoordinates(m.GetStartAxis())
+					c2, r2, _ := excelize.CellNameToCoordinates(m.GetEndAxis())
+					anchor, _ := g.GetCellValue("Sheet1", m.GetStartAxis())
+					if anchor != m.GetCellValue() {
+						c.Fail("oracle", "C04_rows_agree", desc, fmt.Sprintf("%s: GetMergeCells reports %q for %s:%s, GetCellValue(%s) = %q", stage, m.GetCellValue(), m.GetStartAxis(), m.GetEndAxis(), m.GetStartAxis(), anchor), "")
+						return false
+					}
+					for r := r1; r <= r2; r++ {
+						for col := c1; col <= c2; col++ {
+							n, _ := excelize.CoordinatesToCellName(col, r)
+							v, err := g.GetCellValue("Sheet1", n)
+							t, _ := g.GetCellType("Sheet1", n)
+							ta, _ := g.GetCellType("Sheet1", m.GetStartAxis())
+							if err != nil || v != anchor || t != ta {
+								c.Fail("oracle", "C04_rows_agree", desc, fmt.Sprintf("%s: cell %s of the merged range %s:%s reads (%q, type %d, %v); the range reads (%q, type %d) at its first cell", stage, n, m.GetStartAxis(), m.GetEndAxis(), v, t, err, anchor, ta), "")
+								return false
+							}
+						}
+					}
+				}
+				return true
+			}
+			if !check("stream-written sheet", f) {
+				return
+			}
+			g, err := reopen(f)
+			if err != nil {
+				return
+			}
+			defer g.Close()
+			check("after save and open", g)
+		})
 	}
 }
